@@ -282,11 +282,6 @@ class Binding(TypedExpression):
 
         def render_value(expr: NixExpression) -> str:
             """Select inline or multiline rendering to mirror original intent."""
-            if not value_layout.on_newline:
-                if isinstance(expr, NixList) and not expr.has_scope():
-                    inline_preview = expr.simple_inline_preview(indent=val_indent)
-                    if inline_preview is not None:
-                        return inline_preview
             return expr.rebuild(indent=val_indent, inline=not value_layout.on_newline)
 
         value_str = render_value(value_expr)
